@@ -2,7 +2,7 @@
 //! Full `decode` through `Probe<D>` (forwards to the real parsers, records each line's verdict); for each rejected
 //! line the result must equal that of the same file without that line (self-differential, bit-exact).
 
-use crate::corpus::{corrupt_record, file_text, gen_osu, Corpus};
+use crate::corpus::{corrupt_record, corrupt_record_partial, file_text, gen_osu, Corpus};
 use crate::engine::{Scenario, Stats, Tier, Violation};
 use crate::json::J;
 use crate::models::router::route_text;
@@ -46,7 +46,7 @@ impl Scenario for C06 {
         "exploration"
     }
     fn rule(&self) -> String {
-        "Plans = bundled or generated file with 1..4 record faults (L1: field deleted / swapped / replaced by a boundary token / garbage appended / record cut short / corruption deep inside a multi-segment slider path), biased to land right before a record of the same kind. Decoded through Probe<Beatmap|HitObjects|TimingPoints>; for each of up to 12 rejected lines per run the file is decoded again without that line and the two values must be bit-identical. distinct_nontrivial = distinct plan hashes in which at least one line was rejected (counted as the number of such runs' distinct hashes; measured at execution via counter 'runs-with-rejected-line').".into()
+        "Plans = bundled or generated file with 1..4 record faults (L1: field deleted / swapped / replaced by a boundary token / garbage appended / record cut short / corruption deep inside a multi-segment slider path / 'partial progress': an earlier field changed to another valid value AND a later field broken), biased to land right before a record of the same kind. Decoded through Probe<Beatmap|HitObjects|TimingPoints>; for each of up to 12 rejected lines per run the file is decoded again without that line and the two values must be bit-identical. distinct_nontrivial = distinct plan hashes in which at least one line was rejected (counted as the number of such runs' distinct hashes; measured at execution via counter 'runs-with-rejected-line').".into()
     }
     fn assumptions(&self) -> Vec<String> {
         vec![
@@ -87,6 +87,14 @@ impl Scenario for C06 {
             }
             // bias: sections whose parsers hold cross-line state
             let pickrec = |rng: &mut Rng| -> (usize, &'static str) {
+                if rng.chance(1, 3) {
+                    // uniform over sections that have records
+                    let mut secs: Vec<&'static str> = recs.iter().map(|r| r.1).collect();
+                    secs.dedup();
+                    let s = *rng.pick(&secs);
+                    let of: Vec<(usize, &'static str)> = recs.iter().copied().filter(|r| r.1 == s).collect();
+                    return *rng.pick(&of);
+                }
                 for _ in 0..3 {
                     let r = *rng.pick(&recs);
                     if matches!(r.1, "HitObjects" | "TimingPoints" | "Events" | "Difficulty") {
@@ -105,7 +113,8 @@ impl Scenario for C06 {
                 } else {
                     i
                 };
-                if let Some(c) = corrupt_record(&mut rng, lines[src].trim_end()) {
+                let c = if rng.chance(2, 5) { corrupt_record_partial(&mut rng, lines[src].trim_end()) } else { None };
+                if let Some(c) = c.or_else(|| corrupt_record(&mut rng, lines[src].trim_end())) {
                     break Some(c);
                 }
                 if tries > 4 {
